@@ -61,7 +61,10 @@ type Record struct {
 	Trail    string // payload trail when ConsumeX was called
 	Hops     string // hop list carried by the context (every processor and connector passed)
 	Late     string // trail read from the retained payload when Records() is called
-	data     any
+	// Shape of the payload that arrived (see Shapes).  A payload without any resource ("empty") carries
+	// neither tag nor trail: Tag is then the one carried by the request context (WithTag), Trail is "".
+	Shape string
+	data  any
 }
 
 // TrailElem is one parsed trail element.
@@ -213,7 +216,11 @@ func (w *World) Records() []Record {
 	defer w.mu.Unlock()
 	out := make([]Record, len(w.records))
 	for i, r := range w.records {
-		_, r.Late = readPayload(r.data)
+		if _, ok := attrsOf(r.data); ok {
+			_, r.Late = readPayload(r.data)
+		} else {
+			r.Late = ""
+		}
 		r.data = nil
 		out[i] = r
 	}
@@ -304,44 +311,156 @@ const (
 	trailAttr = "vt.trail"
 )
 
-func newPayload(sig, tag, trail string) any {
+// Shapes of an emitted payload, from one item down to nothing at all: "item" (one resource, one scope,
+// one log record / metric with a data point / span / profile with a sample), "hollow" (metrics: a metric
+// without data points; profiles: a profile without samples; logs and traces: as "scope"), "scope" (one
+// resource with one empty scope), "resource" (one resource without scopes), "empty" (no resource).  All
+// but "empty" carry tag and trail in the resource attributes.
+var Shapes = []string{"item", "hollow", "scope", "resource", "empty"}
+
+func newPayload(sig, tag, trail string) any { return newPayloadShape(sig, tag, trail, "item") }
+
+func newPayloadShape(sig, tag, trail, shape string) any {
+	if shape == "" {
+		shape = "item"
+	}
+	mark := func(m pcommon.Map) {
+		m.PutStr(tagAttr, tag)
+		m.PutStr(trailAttr, trail)
+	}
+	scope, item, full := shape != "resource", shape == "item" || shape == "hollow", shape == "item"
 	switch sig {
 	case "logs":
 		v := plog.NewLogs()
+		if shape == "empty" {
+			return v
+		}
 		rl := v.ResourceLogs().AppendEmpty()
-		rl.Resource().Attributes().PutStr(tagAttr, tag)
-		rl.Resource().Attributes().PutStr(trailAttr, trail)
-		rl.ScopeLogs().AppendEmpty().LogRecords().AppendEmpty().Body().SetStr(tag)
+		mark(rl.Resource().Attributes())
+		if scope {
+			sl := rl.ScopeLogs().AppendEmpty()
+			if full {
+				sl.LogRecords().AppendEmpty().Body().SetStr(tag)
+			}
+		}
 		return v
 	case "metrics":
 		v := pmetric.NewMetrics()
+		if shape == "empty" {
+			return v
+		}
 		rm := v.ResourceMetrics().AppendEmpty()
-		rm.Resource().Attributes().PutStr(tagAttr, tag)
-		rm.Resource().Attributes().PutStr(trailAttr, trail)
-		m := rm.ScopeMetrics().AppendEmpty().Metrics().AppendEmpty()
-		m.SetName(tag)
-		m.SetEmptyGauge().DataPoints().AppendEmpty().SetIntValue(1)
+		mark(rm.Resource().Attributes())
+		if scope {
+			sm := rm.ScopeMetrics().AppendEmpty()
+			if item {
+				m := sm.Metrics().AppendEmpty()
+				m.SetName(tag)
+				g := m.SetEmptyGauge()
+				if full {
+					g.DataPoints().AppendEmpty().SetIntValue(1)
+				}
+			}
+		}
 		return v
 	case "traces":
 		v := ptrace.NewTraces()
+		if shape == "empty" {
+			return v
+		}
 		rs := v.ResourceSpans().AppendEmpty()
-		rs.Resource().Attributes().PutStr(tagAttr, tag)
-		rs.Resource().Attributes().PutStr(trailAttr, trail)
-		rs.ScopeSpans().AppendEmpty().Spans().AppendEmpty().SetName(tag)
+		mark(rs.Resource().Attributes())
+		if scope {
+			ss := rs.ScopeSpans().AppendEmpty()
+			if full {
+				ss.Spans().AppendEmpty().SetName(tag)
+			}
+		}
 		return v
 	case "profiles":
 		v := pprofile.NewProfiles()
+		if shape == "empty" {
+			return v
+		}
 		rp := v.ResourceProfiles().AppendEmpty()
-		rp.Resource().Attributes().PutStr(tagAttr, tag)
-		rp.Resource().Attributes().PutStr(trailAttr, trail)
-		rp.ScopeProfiles().AppendEmpty().Profiles().AppendEmpty()
+		mark(rp.Resource().Attributes())
+		if scope {
+			sp := rp.ScopeProfiles().AppendEmpty()
+			if item {
+				pr := sp.Profiles().AppendEmpty()
+				if full {
+					pr.Sample().AppendEmpty()
+				}
+			}
+		}
 		return v
 	}
 	panic("topo: unknown signal " + sig)
 }
 
+// ShapeOf classifies a payload (see Shapes).
+func ShapeOf(v any) string {
+	level := func(resources, scopes, items, leaves int) string {
+		switch {
+		case resources == 0:
+			return "empty"
+		case scopes == 0:
+			return "resource"
+		case items == 0:
+			return "scope"
+		case leaves == 0:
+			return "hollow"
+		}
+		return "item"
+	}
+	switch x := v.(type) {
+	case plog.Logs:
+		n := 0
+		for i := 0; i < x.ResourceLogs().Len(); i++ {
+			n += x.ResourceLogs().At(i).ScopeLogs().Len()
+		}
+		return level(x.ResourceLogs().Len(), n, x.LogRecordCount(), x.LogRecordCount())
+	case pmetric.Metrics:
+		n := 0
+		for i := 0; i < x.ResourceMetrics().Len(); i++ {
+			n += x.ResourceMetrics().At(i).ScopeMetrics().Len()
+		}
+		return level(x.ResourceMetrics().Len(), n, x.MetricCount(), x.DataPointCount())
+	case ptrace.Traces:
+		n := 0
+		for i := 0; i < x.ResourceSpans().Len(); i++ {
+			n += x.ResourceSpans().At(i).ScopeSpans().Len()
+		}
+		return level(x.ResourceSpans().Len(), n, x.SpanCount(), x.SpanCount())
+	case pprofile.Profiles:
+		n, items := 0, 0
+		for i := 0; i < x.ResourceProfiles().Len(); i++ {
+			sps := x.ResourceProfiles().At(i).ScopeProfiles()
+			n += sps.Len()
+			for j := 0; j < sps.Len(); j++ {
+				items += sps.At(j).Profiles().Len()
+			}
+		}
+		return level(x.ResourceProfiles().Len(), n, items, x.SampleCount())
+	}
+	panic("topo: unknown payload type")
+}
+
 // NewPayload builds the payload a receiver of signal sig emits.
 func NewPayload(sig, tag string) any { return newPayload(sig, tag, "") }
+
+// NewPayloadShape builds a payload of the given shape (see Shapes).  An "empty" one carries nothing: emit
+// it with a request context made by WithTag.
+func NewPayloadShape(sig, tag, shape string) any { return newPayloadShape(sig, tag, "", shape) }
+
+type tagKey struct{}
+
+// WithTag makes the request context carry the tag of the emission, which is how arrivals of a payload
+// without any resource are attributed (the test components hand the context on, as the collector's
+// wiring does).
+func WithTag(ctx context.Context, tag string) context.Context {
+	return context.WithValue(ctx, tagKey{}, tag)
+}
 
 // MarkReadOnly marks the payload as shared.
 func MarkReadOnly(v any) {
@@ -358,8 +477,11 @@ func MarkReadOnly(v any) {
 }
 
 // Untouched tells whether the payload still carries an empty trail (no
-// processor changed it).
+// processor changed it).  A payload without any resource is never changed by the test components.
 func Untouched(v any) bool {
+	if _, ok := attrsOf(v); !ok {
+		return true
+	}
 	_, trail := readPayload(v)
 	return trail == ""
 }
@@ -609,9 +731,16 @@ func (w *World) processorFactory() processor.Factory {
 func (w *World) recorder(key string) consumers {
 	return newConsumers(false, func(ctx context.Context, v any) error {
 		tag, trail := readPayload(v)
+		if _, ok := attrsOf(v); !ok {
+			// nothing in the payload: attributed through the request context
+			tag, trail = "?", ""
+			if ct, ok := ctx.Value(tagKey{}).(string); ok {
+				tag = ct
+			}
+		}
 		hops, _ := ctx.Value(hopsKey{}).(string)
 		w.mu.Lock()
-		w.records = append(w.records, Record{Exporter: key, Tag: tag, Trail: trail, Hops: hops, data: v})
+		w.records = append(w.records, Record{Exporter: key, Tag: tag, Trail: trail, Hops: hops, Shape: ShapeOf(v), data: v})
 		w.mu.Unlock()
 		switch w.FailExport[key] {
 		case "ctx":
@@ -686,9 +815,18 @@ func (w *World) sharedExporterFactory() exporter.Factory {
 // connectors ------------------------------------------------------------------
 
 func (w *World) connectorFactory(c Connector) connector.Factory {
+	factoryOf := c
 	mk := func(from, to string, id component.ID, next any) (*comp, consumers, error) {
 		key := ConnKey(from, to, id.String())
 		w.count(key)
+		// several configured connectors may share the type, i.e. this factory (same support matrix): how the
+		// instance behaves is that of the connector with this id
+		c := factoryOf
+		for _, x := range w.T.Connectors {
+			if x.ID == id.String() {
+				c = x
+			}
+		}
 		if c.Route != "" {
 			// routing style: the consumer handed to a connector must be a router
 			if _, err := routed(next, to, c.Route); err != nil {
@@ -710,8 +848,14 @@ func (w *World) connectorFactory(c Connector) connector.Factory {
 			if c.Forward && from == to {
 				return consumeAny(ctx, dst, v)
 			}
+			// a new payload for the destination signal, of the same shape (an item-less payload stays
+			// item-less, one without any resource stays so and cannot carry the connector's mark)
+			shape := ShapeOf(v)
+			if shape == "empty" {
+				return consumeAny(ctx, dst, newPayloadShape(to, "", "", shape))
+			}
 			tag, trail := readPayload(v)
-			return consumeAny(ctx, dst, newPayload(to, tag, extend(trail, elem)))
+			return consumeAny(ctx, dst, newPayloadShape(to, tag, extend(trail, elem), shape))
 		}), nil
 	}
 	// A factory without any profiles pair is a plain connector.Factory (the graph must then treat every
